@@ -8,7 +8,10 @@ PROP = dict(
                    "that order over a property IS the composition quote >> expression >> bind >> validate (C18_pipeline); the expression engine is never handed "
                    "a ${...} pattern and the quote stage leaves none (C18_expr_sees_no_placeholder); the field receives decode(parseAny(formatAny(result))) "
                    "(C18_expr_result); with a validate argument start-up fails iff the validator rejects the bound value, and never without one "
-                   "(C18_validate_iff, C18_validate_only_when_asked, C18_validate_outcome); an optional nil pointer is not validated (C18_validate_absent). "
+                   "(C18_validate_iff, C18_validate_only_when_asked, C18_validate_outcome); an optional nil pointer is not validated (C18_validate_absent); "
+                   "the same composition holds on EVERY population of a property, not only the first: over whatever TagVal and field contents an earlier, failed "
+                   "creation left, the stages run again on TagStr and the CURRENT configuration (C18_repopulate_pipeline; a tag without a placeholder is skipped by "
+                   "the quote processor and continues from its TagVal: C18_repopulate_no_placeholder). "
                    "What expr and validator compute is tied by a differential run against direct calls of both libraries.",
         level_note="expr-lang/expr and go-playground/validator are opaque parameters of the theorems; the harness evaluates every substituted expression and every "
                    "value x constraint pair directly with the libraries and compares with the real start-up. An optional NON-pointer field for which nothing was "
@@ -24,7 +27,15 @@ PROP = dict(
              "constraint) with inner members of their own, the section absent / null / all-zero / filled, the other members valid in half of the cases, bound by ${k} or by prefix; "
              "one expression case in six takes its configured operands through placeholders that declare a default (${k:d}, d different from the configured value, "
              "configured values leaning to 0 and false): the configured value is what the expression must see; the harness substitutes placeholders from the tag's "
-             "syntax tree, evaluates with expr.Compile/Run and validator.Var/Struct directly; 30% of the holders also carry an optional wire dependency (both property groups exist) and are started 4 times, every start must agree (oracle start-unstable); non-trivial = all; distinct = distinct scenario lines",
+             "syntax tree, evaluates with expr.Compile/Run and validator.Var/Struct directly — the validator is handed the field AS DECLARED (a pointer field as the pointer); "
+             "one case in six is a POINTER field (*int *int64 *uint *float64 *bool *string) bound through ${k}, by prefix or as the result of an expression, three times in "
+             "four to the ZERO value of its pointee (0, 0.0, false, \"\"), with a constraint of the has-a-value family (required, required+bound, omitempty+min/gt/ne/eq/len/oneof): "
+             "required holds for a non-nil pointer, omitempty does not skip it; "
+             "one case in six is a TWO-STEP HISTORY (kinds RE, RQ): the same holder is populated twice — app.Run under the first configuration where its creation fails "
+             "(gate: the tagged field itself — its constraint is violated by the first result or an operand is not configured yet | an extra field whose key is absent | "
+             "a dependency whose Init fails while its upstream is down), app.Set of changed operands (numbers, booleans, strings, the operator) or of a changed "
+             "validated value, GetComponentByName(holder): the expression must be evaluated on the CURRENT values and validation must judge the value bound by the "
+             "second creation (a field that still shows the first result: oracle repopulate-stale); 30% of the holders also carry an optional wire dependency (both property groups exist) and are started 4 times, every start must agree (oracle start-unstable); non-trivial = all; distinct = distinct scenario lines",
         trusted_base=COMMON_TB + ["the go/ast facts translator for Facts.builtinProcessors / orderConsts",
                                   "expr-lang/expr and go-playground/validator themselves (opaque; called directly by the oracle)",
                                   "strconv2 / mapstructure as modelled in Ioc.Value (validated by the correspondence)"],
